@@ -213,6 +213,28 @@ func init() {
 			fr.i.unsupported("%s", fr.i.argStr(a[0], "message"))
 			return nil
 		},
+		// Process(f) runs f as a "process" that Crash() can kill: the frames of f are discarded without running any
+		// deferred call of the code under test; Process returns true iff it was killed.
+		"Process": func(fr *frame, a []value) (res value) {
+			i := fr.i
+			th := i.cur
+			saved := th.curFrame
+			defer func() {
+				if r := recover(); r != nil {
+					if _, ok := r.(crashPanic); ok {
+						th.curFrame = saved
+						res = i.mkBool(true)
+						return
+					}
+					panic(r)
+				}
+			}()
+			i.call(fr, fr.fn.Pos(), a[0], nil)
+			return i.mkBool(false)
+		},
+		"Crash": func(fr *frame, a []value) value {
+			panic(crashPanic{})
+		},
 		"SpawnDeferred": func(fr *frame, a []value) value {
 			b, _ := isConstBool(a[0])
 			fr.i.cfg.SpawnDeferred = b
@@ -372,6 +394,7 @@ func init() {
 		},
 		"runtime.GOROOT": func(fr *frame, a []value) value { return "" },
 		"syscall.Getenv": func(fr *frame, a []value) value { return tuple{"", fr.i.mkBool(false)} },
+		"os.Getpagesize": func(fr *frame, a []value) value { return fr.i.mkInt(types.Int, 4096) },
 		"os.Getenv":      func(fr *frame, a []value) value { return "" },
 		"os.LookupEnv":   func(fr *frame, a []value) value { return tuple{"", fr.i.mkBool(false)} },
 		"time.Now": func(fr *frame, a []value) value {
@@ -1086,4 +1109,26 @@ func init() {
 	externals["(github.com/opencontainers/go-digest.Algorithm).FromString"] = fromBytes
 	externals["crypto/internal/fips140.getIndicator"] = func(fr *frame, a []value) value { return fr.i.mkInt(types.Uint8, 0) }
 	externals["crypto/internal/fips140.setIndicator"] = func(fr *frame, a []value) value { return nil }
+}
+
+func init() {
+	// context.WithValue checks key comparability through reflectlite; build the valueCtx directly.
+	externals["context.WithValue"] = func(fr *frame, a []value) value {
+		i := fr.i
+		parent := a[0].(iface)
+		if parent.t == nil {
+			panic(targetPanic{v: iface{i.runtimeErrorString, "cannot create context from nil parent"}})
+		}
+		key := a[1].(iface)
+		if key.t == nil {
+			panic(targetPanic{v: iface{i.runtimeErrorString, "nil key"}})
+		}
+		t := i.pkgType("context", "valueCtx")
+		var cell value = structure{parent, key, a[2]}
+		return iface{types.NewPointer(t), &cell}
+	}
+}
+
+func init() {
+	externals["github.com/containerd/log.WithLogger"] = func(fr *frame, a []value) value { return a[0] }
 }
